@@ -153,12 +153,21 @@ Theorem C31_select_no_duplicates ign acc filt key inputs :
 Proof. exact (select_files_no_duplicates ign acc filt key inputs). Qed.
 Print Assumptions C31_select_no_duplicates.
 
-Theorem C31_select_sound_partial ign acc filt key inputs p :
+Theorem C31_select_sound ign acc filt key inputs p :
   In p (select_files ign acc filt key inputs) ->
   exists path t, In (path, t) inputs /\ selected ign acc (corrected path) t p /\
                  match filt with Some f => f p = true | None => True end.
 Proof. exact (select_files_selected ign acc filt key inputs p). Qed.
-Print Assumptions C31_select_sound_partial.
+Print Assumptions C31_select_sound.
+
+(* ... and conversely every selected, filter-passing file of every input is
+   analysed, or a file with the same absolute path (the first one) is *)
+Theorem C31_select_complete ign acc filt key inputs path t p :
+  In (path, t) inputs -> selected ign acc (corrected path) t p ->
+  match filt with Some f => f p = true | None => True end ->
+  exists q, In q (select_files ign acc filt key inputs) /\ key q = key p.
+Proof. exact (select_files_complete ign acc filt key inputs path t p). Qed.
+Print Assumptions C31_select_complete.
 
 (* the inputs on which the iterator deviated before fix 5cbe6ed are now read canonically *)
 Example C31_iterator_fixed_witnesses :
